@@ -38,13 +38,32 @@ def run(prop, tier, seed):
     return finish(rep)
 
 
+GTABLE = [(["date", "int", "str"], [["str", "2024-02-28"], ["str", "2023-02-28"], ["float", 25, -1], ["float", 15, -1], ["float", 2, 0], ["bool", True]])]
+
+
+def diff_paths(a, b, pre=()):
+    """index paths at which two terms differ"""
+    if isinstance(a, list) and isinstance(b, list) and len(a) == len(b):
+        out = []
+        for i, (x, y) in enumerate(zip(a, b)):
+            out += diff_paths(x, y, pre + (i,))
+        return out
+    return [] if (a == b and type(a) is type(b)) else [list(pre)]
+
+
 def run_into(rep, prop, tier, seed):
     """the sys state-machine part; also used by C04 and C08 (format / keyword histories)"""
     wd = tlc.scratch()
-    for kw in configs(prop, tier):
-        cfg = core.cfg_text("MC_Sys.cfg", **kw)
-        r = core.run_mc_with_table("MC_Sys", wd, TABLE, cfg=cfg, rep=rep, timeout=3000,
-                                   label=f"MC_Sys {kw}: Faithful CacheOwn IsolationEq CodecPure; every history of full length exported")
+    runs = [("MC_Sys", TABLE, kw) for kw in configs(prop, tier)]
+    if prop == "C14":
+        # a generic nested dataclass at ==-equal but differently ordered specialisations (sys/Mashumaro.tla: gspecs)
+        runs += [("MC_SysG", GTABLE, dict(MaxLen=5, Lazy=True)), ("MC_SysG", GTABLE, dict(MaxLen=5 if tier == "quick" else 6, Lazy=False))]
+    for module, table, kw in runs:
+        cfg = core.cfg_text(module + ".cfg", **kw)
+        r = core.run_mc_with_table(module, wd, table, cfg=cfg, rep=rep, timeout=3000,
+                                   label=f"{module} {kw}: Faithful CacheOwn IsolationEq CodecPure; every history of full length exported")
+        if module != "MC_Sys":
+            kw = {**kw, "family": module}
         if r.violated:
             raise tlc.MachineryError(f"model property violated on the reference spec: {r.violated}")
         t = behave.SysTables(r.printed)
@@ -59,6 +78,7 @@ def run_into(rep, prop, tier, seed):
             ev_ = m["event"]
             akey = (ev_[1], ev_[2], ev_[3], ev_[4], ev_[5]) if ev_[0] == "Call" else None
             rep.violation(m["clause"], {**m, "config": kw, "replay_module": "harness.checks.sys_props", "prop": prop,
+                                        "diff": diff_paths(m["expected"], m["actual"]),
                                         "arg": t.args.get(akey) if akey else None,
                                         "args": {jkey(list(e[1:6])): t.args.get((e[1], e[2], e[3], e[4], e[5])) for e in m["history"] if e[0] == "Call" and e[2] == "from"},
                                         "tables": {"classes": t.classes, "values": t.values, "inputs": t.inputs, "dialects": t.dialects,
@@ -76,6 +96,11 @@ def run_into(rep, prop, tier, seed):
         from harness.checks import c13_formats
         c13_formats.run(rep, tier)
     if prop == "C14":
+        try:
+            rd = core.run_mc_with_table("MC_SysG", wd, GTABLE, cfg=core.cfg_text("MC_SysG.cfg", MaxLen=4, SpecKeyMode='"equal"'), timeout=900)
+            rep.selftests["equal_type_args_sharing_one_specialisation_refuted_by_TLC"] = "Faithful" in rd.violated
+        except tlc.MachineryError as e:
+            rep.selftests["equal_type_args_sharing_one_specialisation_refuted_by_TLC"] = "Faithful" in str(e)
         from harness.checks import c14_extra
         c14_extra.run(rep, tier, seed)
     if prop == "C15":
